@@ -4,10 +4,10 @@ from rules import chk as K
 
 
 def run(ctx):
-    T.tbl15_aggregator_plumbing(ctx)
-    T.tbl16_aggregator_operations(ctx)
-    T.tbl14_aggregate_merge_table(ctx)
-    K.chk8_sum(ctx)
+    ctx.run(T.tbl15_aggregator_plumbing)
+    ctx.run(T.tbl16_aggregator_operations)
+    ctx.run(T.tbl14_aggregate_merge_table)
+    ctx.run(K.chk8_sum)
     return ctx.finish(
         'Syntax-tree table rules: an aggregate keeps its kind from the SQL text (COUNT/SUM/MIN/MAX, '
         'AVG = SUM / COUNT) through the planner to the operator; each aggregator marker type accumulates '
